@@ -91,6 +91,12 @@ void sp_ra_freetemp_stub(JanetcRegisterAllocator *ra, int32_t reg, JanetcRegiste
 void sp_ra_touch_stub(JanetcRegisterAllocator *ra, int32_t reg) { sp_touch_calls++; sp_touched = reg; }
 void sp_ra_free_stub(JanetcRegisterAllocator *ra, int32_t reg) { sp_free_calls++; sp_freed = reg; }
 
+/* contract of janetc_emit (proved in comp.srcmap.emit): appends the instruction and the current source mapping */
+void sp_emit_stub(JanetCompiler *c, uint32_t instr) {
+    __CPROVER_assert(c == &sp_c && sp_bufmem.cnt + 1 < SP_VCAP, "harness: the preallocated instruction vectors suffice");
+    __CPROVER_assume(sp_bufmem.cnt + 1 < SP_VCAP);
+    sp_bufmem.data[sp_bufmem.cnt++] = instr; sp_mapmem.data[sp_mapmem.cnt++] = c->current_mapping;
+}
 static void sp_emit_owned(int f, int part, uint32_t w) {
     int32_t at = janet_v_count(sp_c.buffer);
     if (at < SP_VCAP) { sp_own[at] = (int8_t)(f + 1); sp_part[at] = (int8_t) part; sp_word[at] = w; }
